@@ -187,7 +187,10 @@ KEYS = {"Value": "Value", "Var": "Var", "Not": "!", "Neg": "neg", "IsEmpty": "is
         "kind": "kind", "body": "body", "when": "when", "unless": "unless", "op": "op", "All": "All", "entity": "entity",
         "entities": "entities", "type": "type", "id": "id", "Entity": "__entity", "Extn": "__extn", "fn": "fn", "ip": "ip",
         "decimal": "decimal", "datetime": "datetime", "duration": "duration", "uid": "uid", "attrs": "attrs", "parents": "parents",
-        "tags": "tags", "staticPolicies": "staticPolicies", "slot": "slot", "lessThan": "lessThan"}
+        "tags": "tags", "staticPolicies": "staticPolicies", "slot": "slot", "lessThan": "lessThan",
+        "decision": "decision", "diagnostic": "diagnostic", "reasons": "reasons", "errors": "errors", "policy": "policy",
+        "position": "position", "filename": "filename", "offset": "offset", "line": "line", "column": "column", "message": "message",
+        "allow": "allow", "deny": "deny"}
 jk = ["------------------------------ MODULE JsonKeys ------------------------------",
       "(* GENERATED by tools/genuniverse.py -- key and keyword strings of the JSON formats as code points. *)"]
 for name, text in KEYS.items():
